@@ -122,6 +122,12 @@ type Sink struct {
 	stalledUntil  int
 	Handle        func(m sim.Msg)
 	NoChoice      bool
+	// Every > 0: a slow consumer, it takes at most one message per Every
+	// cycles (a configuration of the environment, not a choice), so that the
+	// component's port buffer and its internal queues fill up behind it.
+	Every    int
+	lastTake int
+	took     bool
 }
 
 // Step takes up to max messages; returns true if the sink is stalled (pending work).
@@ -135,6 +141,9 @@ func (s *Sink) Step(max int) bool {
 		if m == nil {
 			return false
 		}
+		if s.Every > 0 && s.took && w.Cycle() < s.lastTake+s.Every {
+			return true
+		}
 		if !s.NoChoice && len(s.StallAlphabet) > 0 && w.X.CanDeviate() {
 			c := w.X.Choose(1+len(s.StallAlphabet), "take:"+s.Tag)
 			if c > 0 {
@@ -144,6 +153,7 @@ func (s *Sink) Step(max int) bool {
 			}
 		}
 		m = s.Port.RetrieveOutgoing()
+		s.lastTake, s.took = w.Cycle(), true
 		w.X.Logf("[%d] %s -> env: %s", w.Cycle(), s.Tag, Describe(m))
 		s.Handle(m)
 	}
